@@ -31,6 +31,7 @@ type spec struct {
 	FullLog   bool              `json:"full_log"`
 	KeepScen  bool              `json:"keep_scenario"`
 	WatchdogS int               `json:"watchdog_s"`
+	GenOnly   bool              `json:"gen_only"` // gen mode: only generate the scenarios (the orchestrator recovers the scenario of a run that killed its worker)
 	EnumFrom  int               `json:"enum_from"`
 	EnumStep  int               `json:"enum_step"`
 }
@@ -107,7 +108,7 @@ func TestWorker(t *testing.T) {
 	}
 
 	for i, j := range jobs {
-		if sp.Mode == "genonly" {
+		if sp.Mode == "genonly" || sp.GenOnly {
 			// only report the scenario a seed generates (used to recover the
 			// scenario of a run that killed its worker process)
 			line, _ := json.Marshal(&core.Result{Property: p.ID, Seed: j.seed, Verdict: "generated", Scenario: j.scen})
